@@ -173,7 +173,9 @@ Finalize == /\ pc = "fin"
                        aboveK == IF cut = "lel" THEN UNION {layers[j] : j \in 1..(IF lelI <= Len(layers) THEN lelI ELSE Len(layers))}
                                  ELSE {k \in DOMAIN nodes : Exact(k)}
                        vb(k) == IF doLocb THEN VBot(k, term) ELSE NegInf
-                       SubT(a, b2) == IF a >= PosInf \div 2 THEN (IF a = NoTheta THEN NoTheta ELSE PosInf) ELSE IF b2 >= PosInf \div 2 THEN NegInf ELSE IF b2 <= NegInf \div 2 THEN PosInf ELSE a - b2
+                       \* (saturating isize arithmetic of the code; isize::MIN - isize::MIN = 0: no incumbent and a dead end)
+                       SubT(a, b2) == IF a >= PosInf \div 2 THEN (IF a = NoTheta THEN NoTheta ELSE PosInf) ELSE IF b2 >= PosInf \div 2 THEN NegInf
+                                      ELSE IF b2 <= NegInf \div 2 THEN (IF a <= NegInf \div 2 THEN 0 ELSE PosInf) ELSE a - b2
                        ThInit(k) == IF k \in term /\ bestE # NoKey /\ ((cut = "lel" /\ isEx) \/ (cut = "fc" /\ Exact(k))) THEN bestKnown ELSE nodes[k].th
                        Theta[k \in DOMAIN nodes] ==
                            IF nodes[k].del THEN NoTheta
